@@ -15,6 +15,7 @@ import (
 	"verif/harness/internal/dbx"
 	"verif/harness/internal/kvmap"
 	"verif/harness/internal/rec"
+	"verif/harness/internal/txrec"
 )
 
 func init() { cmds["conc"] = cmdConc }
@@ -71,12 +72,15 @@ func genConc(r *rand.Rand, id string, profile string) ConcSpec {
 }
 
 // runConc executes one scenario and returns the recorded API trace.
-func runConc(s ConcSpec, watchdog time.Duration) (*rec.Trace, ConcResult) {
+func runConc(s ConcSpec, watchdog time.Duration, txr *txrec.Rec) (*rec.Trace, ConcResult) {
 	res := ConcResult{ID: s.ID, Profile: s.Profile}
 	dir := scratch("conc")
 	defer os.RemoveAll(dir)
 	km := kvmap.New(s.Alphabet, s.NKeys)
 	tr := &rec.Trace{}
+	if txr != nil {
+		tr.Mirror = txr.API
+	}
 	st, err := dbx.Open(dir, s.Cfg.Config(), tr, km, true)
 	if err != nil {
 		res.Watchdog = "open: " + err.Error()
@@ -89,6 +93,10 @@ func runConc(s ConcSpec, watchdog time.Duration) (*rec.Trace, ConcResult) {
 		wg.Add(1)
 		go func(w int) {
 			defer wg.Done()
+			if txr != nil {
+				txr.Bind(w)
+				defer txrec.Unbind()
+			}
 			r := rand.New(rand.NewSource(mix(s.Seed, w)))
 			c := st.Sess(w)
 			pause := func() {
@@ -247,6 +255,10 @@ waiting:
 	}
 	// final state, after the background work has drained (steering only)
 	waitIdle(st, 5*time.Second)
+	if txr != nil {
+		txr.Bind(1)
+		defer txrec.Unbind()
+	}
 	c := st.Sess(1)
 	c.Begin(false)
 	for k := 1; k <= s.NKeys; k++ {
@@ -353,11 +365,14 @@ func cmdConc(args []string) int {
 	only := fs.Int("only", -1, "run only scenario i")
 	wd := fs.Duration("watchdog", 60*time.Second, "per-scenario watchdog")
 	perturb := fs.Int("perturb", 2, "0..3: seeded random delays at hook points outside the short critical sections")
+	impl := fs.Bool("impl", false, "also record the implementation-level stream (API + oracle/commit hooks) for TraceTxn.tla")
 	birthday := fs.Int("birthday", 0, "run only the fingerprint birthday scenario with this many keys per side")
 	_ = fs.Parse(args)
 	mustMkdir(*out)
 	if *perturb > 0 {
-		installPerturb(*seed, *perturb)
+		installPerturb(*seed, *perturb, *impl)
+	} else if *impl {
+		verifhook.SetGate(txrec.Hook)
 	}
 	if *birthday > 0 {
 		tr, res := runBirthday(*birthday, *seed)
@@ -384,6 +399,7 @@ func cmdConc(args []string) int {
 	}
 	results := make([]ConcResult, len(specs))
 	traces := make([]*rec.Trace, len(specs))
+	txrs := make([]*txrec.Rec, len(specs))
 	var wg sync.WaitGroup
 	sem := make(chan struct{}, *par)
 	for i := range specs {
@@ -392,7 +408,10 @@ func cmdConc(args []string) int {
 		go func(i int) {
 			defer wg.Done()
 			defer func() { <-sem }()
-			traces[i], results[i] = runConc(specs[i], *wd)
+			if *impl {
+				txrs[i] = txrec.New()
+			}
+			traces[i], results[i] = runConc(specs[i], *wd, txrs[i])
 		}(i)
 	}
 	wg.Wait()
@@ -411,22 +430,45 @@ func cmdConc(args []string) int {
 		fmt.Fprintln(os.Stderr, err)
 		return 2
 	}
-	writeJSON(join(*out, "summary.json"), map[string]any{
+	summ := map[string]any{
 		"traces": w.Traces, "events": w.Events, "offsets": w.Offsets,
 		"workers": maxW, "keys": maxKeys, "results": results, "specs": specs,
-	})
+	}
+	if *impl {
+		iw, err := txrec.NewWriter(join(*out, "impl.ndjson"))
+		if err != nil {
+			fmt.Fprintln(os.Stderr, err)
+			return 2
+		}
+		var which []int
+		for i := range specs {
+			if results[i].Watchdog == "" {
+				iw.Write(txrs[i].Snapshot())
+				which = append(which, i)
+			}
+		}
+		if err := iw.Close(); err != nil {
+			fmt.Fprintln(os.Stderr, err)
+			return 2
+		}
+		summ["impl_offsets"], summ["impl_events"], summ["impl_specs"] = iw.Offsets, iw.Events, which
+	}
+	writeJSON(join(*out, "summary.json"), summ)
 	return 0
 }
 
 // installPerturb widens race windows: at yield points of the committer and the flusher (never
 // inside the oracle mutex, db.mu or levelManager.mu) the calling goroutine sometimes sleeps.
 // This only changes the schedule; verdicts never depend on it.
-func installPerturb(seed int64, level int) {
+func installPerturb(seed int64, level int, impl bool) {
 	var mu sync.Mutex
 	r := rand.New(rand.NewSource(mix(seed, 4242)))
 	points := map[string]bool{"cm.lock.pre": true, "cm.decided": true, "cm.applied": true, "cm.enq.pre": true,
 		"cm.enq": true, "cm.done": true, "fl.take": true, "fl.flushed": true, "fl.compacted": true, "fl.removed": true}
 	verifhook.SetGate(func(point string, args ...any) {
+		if impl {
+			txrec.Hook(point, args...)
+		}
 		if !points[point] {
 			return
 		}
